@@ -431,7 +431,9 @@ theorem readBlocks_shape (hR : RdOK E) (csize : Int) : ∀ (fuel : Nat) (buf : B
       · split
         · apply Shape.readByte _ hR.read
           intro o
-          cases o <;> simp only <;> split <;> (first | exact Shape.ret _ | (split <;> exact Shape.ret _))
+          cases o with
+          | none => exact Shape.ret _
+          | some x => simp only; split <;> (first | exact Shape.ret _ | (split <;> exact Shape.ret _))
         · exact Shape.ret _
 
 theorem readCompressed_shape (hR : RdOK E) (fuel : Nat) (p : Proposal) : Shape E (readCompressed fuel p) := by
